@@ -178,11 +178,24 @@ def _value_for(rng, T, f):
     return value_for(rng, T, f, undecodable_ok=False)
 
 
+_FACTS = None
+
+
+def device_facts():
+    global _FACTS
+    if _FACTS is None:
+        import json
+        import os
+        _FACTS = json.load(open(os.path.join(os.path.dirname(os.path.abspath(__file__)), "device_facts.json")))["facts"]
+    return _FACTS
+
+
 def device_table(rng, T, present, p_answer=0.8):
     """scripted answers of a synthetic receiver: a random subset of the functions of the present subunits, multi-value groups answered
     with several member lines"""
     table = {}
     by_id = {c["id"]: c for c in T["classes"]}
+    facts = device_facts()
     for sid in present:
         c = by_id[sid]
         groups = {}
@@ -192,9 +205,12 @@ def device_table(rng, T, present, p_answer=0.8):
             if rng.random() > p_answer:
                 continue
             v = _value_for(rng, T, f)
-            q = f["init"] or f["name"]
+            # which multi-value answer carries a function is a fact about receivers, not about the library: taken from the frozen facts
+            # (falls back to the code's table only for functions the facts do not know)
+            grp = facts.get(sid, {}).get(f["name"], {"group": f["init"]})["group"]
+            q = grp or f["name"]
             groups.setdefault(q, []).append(f"@{sid}:{f['name']}={v}")
-            if f["init"] and rng.random() < 0.5:
+            if grp and rng.random() < 0.5:
                 table[f"@{sid}:{f['name']}=?"] = [f"@{sid}:{f['name']}={v}"]
         for q, lines in groups.items():
             rng.shuffle(lines)
